@@ -19,6 +19,8 @@ UNITS_DIR = [
     "[<]CC(C)([>])C(=O)OC",
     "[<]C(=O)c1ccc(cc1)C(=O)[>]",
     "[<]N[>]",
+    "[<][13CH2]C[>]",
+    "[<]C([2H])([2H])O[>]",
 ]
 UNITS_SYM = ["[$]CC[$]", "[$]CO[$]", "[$]CC([$])c1ccccc1", "[$]C(Br)C[$]", "[$]C([$])C=O"]
 PREFIXES = ["N", "[H]", "CC", "OC", "c1ccccc1C", "[NH3+]C", "ClC"]
@@ -199,6 +201,12 @@ def families(tier, seed):
     yield Instance("double-polyene", mol(sto("[]", ["[$]=CC=[$]"], ["[$]=O", "[$]=C"], "[]", g0(60.0))), family="bond-order")
     yield Instance("double-mixed", mol(tok("N"), sto("[$]", ["[$]C(=[$])C=[$]", "[$]CC[$]"], ["[$]=O", "[$][H]"], "[$]", g0(60.0)), tok("F")), family="bond-order")
     yield Instance("triple-dir", mol(sto("[]", ["[<]#CC#[>]", "[<]#CCC#[>]"], ["[>]#N", "[<]#C"], "[]", g0(60.0))), family="bond-order")
+    # the prefix's own descriptor prescribes the bond order of the first bond (the left terminal is written plain)
+    yield Instance("prefix-explicit-double", mol(tok("CC=[$]"), sto("[$]", ["[$]=CC=[$]", "[$]CC[$]"], ["[$][H]", "[$]=O"], "[]", g0(60.0))), family="bond-order")
+    yield Instance("prefix-explicit-triple", mol(tok("N#[>]"), sto("[>]", ["[<]#CC#[>]", "[<]CC[>]"], ["[>]#N", "[>]F"], "[]", g0(40.0))), family="bond-order")
+    # isotope labelled units: the heavy-atom mass is the isotope's
+    yield Instance("isotope-unit", mol(tok("N"), sto("[>]", ["[<][13CH2][13CH2][>]", "[<]C[14CH2][>]"], [], "[<]", g0(55.0)), tok("F")), family="chemistry")
+    yield Instance("isotope-endstart", mol(sto("[]", ["[$]C[13CH2][$]"], ["[$][H]", "[$]Br"], "[]", g0(57.0))), family="end-initiated")
     # 12. bare stochastic object with open ends / molecule without suffix
     yield Instance("open-right", mol(tok("N"), sto("[>]", [a, b], [], "[<]", g0(40.0))), family="open-ends")
     # 13. aromatic / charged / ring unit mixes
@@ -209,3 +217,145 @@ def families(tier, seed):
     yield Instance("nitrile-branch", mol(tok("N"), sto("[$]", ["[$]CC(C#N)([$])", "[$]CC(Cl)([$])"], [], "[$]", g0(70.0)), tok("F")), family="chemistry")
     if thorough:
         yield Instance("chem-mix2", mol(tok("c1ccccc1C"), sto("[>]", ["[<]C1CCC([>])CC1", "[<][Si](C)(C)[>]", "[<]C(Cl)C[>]"], [], "[<]", g0(150.0)), tok("Br")), family="chemistry")
+
+
+# ----------------------------------------------------------------------------------------------------------------------
+# Feature product: instances assembled from independent feature dimensions; the tier's set is a greedy ALL-PAIRS cover
+# (every pair of feature values occurs in at least one instance; thorough adds all triples of the first five dimensions).
+
+DIMS = {
+    "kind": ["dir", "sym", "dir-id", "sym-id"],
+    "topo": ["lin", "same-atom", "branch", "ring", "side"],
+    "units": ["one", "two", "two-w31", "two-w01", "two-w00"],
+    "ends": ["none", "one", "two-w"],
+    "start": ["prefix1", "prefixM", "prefixX", "endstart"],
+    "tail": ["suffix", "suffixX", "object", "conn-object", "closed"],
+    "tlist": ["none", "unit", "left"],
+    "target": [0.5, 1.6, 2.4],
+}
+
+
+def _pairs_cover(dims, seed=0, strength2=True):
+    import itertools as it
+    import random
+
+    names = list(dims)
+    rnd = random.Random(1234 + seed)
+    need = set()
+    for a, b in it.combinations(range(len(names)), 2):
+        for va in dims[names[a]]:
+            for vb in dims[names[b]]:
+                need.add((a, va, b, vb))
+    rows = []
+    while need:
+        best, bestc = None, -1
+        for _ in range(60):
+            row = [rnd.choice(dims[n]) for n in names]
+            # seed the candidate with one uncovered pair
+            a, va, b, vb = rnd.choice(sorted(need, key=str)[:50])
+            row[a], row[b] = va, vb
+            c = sum(1 for (x, vx, y, vy) in need if row[x] == vx and row[y] == vy)
+            if c > bestc:
+                best, bestc = row, c
+        rows.append(dict(zip(names, best)))
+        need = {(x, vx, y, vy) for (x, vx, y, vy) in need if not (best[x] == vx and best[y] == vy)}
+    return rows
+
+
+def _build_feature_instance(f, idx):
+    """assemble a molecule description from a feature vector (may be ill posed: the reference model then predicts the
+    error mass and the implementation must agree)"""
+    kind, topo = f["kind"], f["topo"]
+    if kind == "dir":
+        L, Rr, a, b = "[>]", "[<]", "[<]", "[>]"
+    elif kind == "sym":
+        L, Rr, a, b = "[$]", "[$]", "[$]", "[$]"
+    elif kind == "dir-id":
+        L, Rr, a, b = "[>1]", "[<1]", "[<1]", "[>1]"
+    else:
+        L, Rr, a, b = "[$2]", "[$2]", "[$2]", "[$2]"
+    body = {"lin": ("CC", "CO"), "same-atom": ("C", "N"), "branch": ("CC", "CN"), "ring": ("C1CCC", "C1CC"), "side": ("CC(C#N)", "CC(Cl)")}[topo]
+
+    def unit(core, wa=None, lst=None):
+        A = a if wa is None else a[:-1] + f"|{wa}|]"
+        B = b if lst is None else b[:-1] + f"|{lst}|]"
+        if topo == "lin" or topo == "side":
+            return f"{A}{core}{B}"
+        if topo == "same-atom":
+            return f"{A}{core}{B}"
+        if topo == "branch":
+            return f"{A}{core}({b}){B}"
+        if topo == "ring":
+            return f"{A}{core}({B})CC1" if core == "C1CCC" else f"{A}{core}({B})C1"
+        raise ValueError(topo)
+
+    ws = {"one": [None], "two": [None, None], "two-w31": ["3", "1"], "two-w01": ["0", "1"], "two-w00": ["0", "0"]}[f["units"]]
+    nunit = len(ws)
+    ndesc_unit = 3 if topo == "branch" else 2
+    ends = []
+    if f["ends"] != "none" or topo == "branch" or f["start"] == "endstart" or f["tail"] == "closed":
+        # end groups that can close both descriptor classes
+        if kind in ("sym", "sym-id"):
+            ends = [f"{a}[H]"] + ([f"{a[:-1]}|2|]O"] if f["ends"] == "two-w" else [])
+        else:
+            ends = [f"{a}Cl", f"{b}N"] + ([f"{a[:-1]}|3|]Br"] if f["ends"] == "two-w" else [])
+    ndesc = nunit * ndesc_unit + len(ends)
+    lst_unit = None
+    lst_left = None
+    if f["tlist"] == "unit":
+        # descriptor b of the first unit: go to descriptor a of the last unit, or (weight 1) to the first end group
+        v = ["0"] * ndesc
+        v[(nunit - 1) * ndesc_unit] = "2"
+        if ends:
+            v[nunit * ndesc_unit] = "1"
+        lst_unit = " ".join(v)
+    if f["tlist"] == "left":
+        v = ["0"] * ndesc
+        v[(nunit - 1) * ndesc_unit] = "1"
+        lst_left = " ".join(v)
+    units = [unit(body[i % 2], ws[i], lst_unit if i == 0 else None) for i in range(nunit)]
+    m = max(token_ref(u).mass for u in units)
+    tgt = f["target"]
+    if topo == "branch" and kind in ("sym", "sym-id"):
+        tgt = min(tgt, 1.6)  # every descriptor bonds with every other one: keep the choice tree enumerable
+    dist = g0(round(tgt * m + 0.013, 3))
+    start, tail = f["start"], f["tail"]
+    left = "[]" if start == "endstart" else (L if lst_left is None else L[:-1] + f"|{lst_left}|]")
+    right = "[]" if tail == "closed" else Rr
+    els = []
+    if start == "prefix1":
+        els.append(tok("N"))
+    elif start == "prefixM":
+        els.append(tok("OCC"))
+    elif start == "prefixX":
+        els.append(tok("N" + L[:-1] + "|0|]"))
+    els.append(sto(left, units, ends, right, dist))
+    if tail == "suffix":
+        els.append(tok("F"))
+    elif tail == "suffixX":
+        els.append(tok(Rr + "C(F)F"))
+    elif tail in ("object", "conn-object"):
+        if tail == "conn-object":
+            els.append(tok("S"))
+        u2 = f"{a}CS{b}"
+        els.append(sto(L, [u2], [], Rr, g0(round(1.5 * token_ref(u2).mass, 3))))
+        els.append(tok("F"))
+    return Instance(f"fp{idx}|" + "|".join(str(f[k]) for k in DIMS), mol(*els), family="feature-product")
+
+
+def feature_instances(tier, seed):
+    rows = _pairs_cover(DIMS, seed if tier == "thorough" else 0)
+    if tier == "thorough":
+        rows += _pairs_cover(DIMS, seed + 1) + _pairs_cover(DIMS, seed + 2)
+    out = []
+    seen = set()
+    for i, f in enumerate(rows):
+        try:
+            inst = _build_feature_instance(f, i)
+        except Exception:  # noqa
+            continue
+        if inst.text in seen:
+            continue
+        seen.add(inst.text)
+        out.append(inst)
+    return out
